@@ -757,3 +757,82 @@ def mkbv(t, w):
     if z3.is_bv_value(t):
         return t.as_long()
     return SymBV(t, w)
+
+
+# ---------------------------------------------------------------- IEEE-754 binary64 (one float-semantics kernel: C15-fp)
+_RNE = z3.RNE()
+_F64 = z3.Float64()
+
+
+class SymF64:
+    """A float64 as a z3 floating-point term; every operation rounds to nearest-even like the hardware does."""
+
+    __slots__ = ("t",)
+
+    def __init__(self, t):
+        self.t = t
+
+    @staticmethod
+    def lift(x):
+        if isinstance(x, SymF64):
+            return x.t
+        if isinstance(x, SymReal):
+            if x.c is None:
+                raise HarnessError("exact-real symbolic value met a float64 symbolic value")
+            return z3.FPVal(float(x.c), _F64)
+        if isinstance(x, (bool, np.bool_)):
+            return z3.FPVal(float(x), _F64)
+        if isinstance(x, (int, float, np.integer, np.floating)):
+            return z3.FPVal(float(x), _F64)
+        return None
+
+    def _bin(self, o, f, rev=False):
+        b = SymF64.lift(o)
+        if b is None:
+            return NotImplemented
+        return SymF64(f(_RNE, b, self.t) if rev else f(_RNE, self.t, b))
+
+    def __add__(self, o): return self._bin(o, z3.fpAdd)
+    def __radd__(self, o): return self._bin(o, z3.fpAdd, True)
+    def __sub__(self, o): return self._bin(o, z3.fpSub)
+    def __rsub__(self, o): return self._bin(o, z3.fpSub, True)
+    def __mul__(self, o): return self._bin(o, z3.fpMul)
+    def __rmul__(self, o): return self._bin(o, z3.fpMul, True)
+    def __truediv__(self, o): return self._bin(o, z3.fpDiv)
+    def __rtruediv__(self, o): return self._bin(o, z3.fpDiv, True)
+    def __neg__(self): return SymF64(z3.fpNeg(self.t))
+    def __abs__(self): return SymF64(z3.fpAbs(self.t))
+
+    def _cmp(self, o, f):
+        b = SymF64.lift(o)
+        if b is None:
+            return NotImplemented
+        return mkbool(f(self.t, b))
+
+    def __le__(self, o): return self._cmp(o, z3.fpLEQ)
+    def __lt__(self, o): return self._cmp(o, z3.fpLT)
+    def __ge__(self, o): return self._cmp(o, z3.fpGEQ)
+    def __gt__(self, o): return self._cmp(o, z3.fpGT)
+    def __eq__(self, o):
+        if o is None:
+            return False
+        return self._cmp(o, z3.fpEQ)
+
+    def __ne__(self, o):
+        r = self.__eq__(o)
+        return (not r) if isinstance(r, bool) else ~r
+
+    def __bool__(self):
+        return _eng.current().branch(z3.Not(z3.fpIsZero(self.t)))
+
+    def __hash__(self):
+        return hash(self.t)
+
+    def __deepcopy__(self, memo):
+        return self
+
+    def __float__(self):
+        raise HarnessError("symbolic float64 reached a C-level float boundary")
+
+    def __repr__(self):
+        return "F64(%s)" % self.t
